@@ -1,4 +1,7 @@
 //@ item: integer/src/mul/toom_3.rs :: add_signed_mul_same_len
+// Toom-Cook-3: c += sign * a * b, |a| == |b| == n >= 16.  A long function (13 accumulations into c, 5 evaluations,
+// interpolation): one SMT query of ~10 s, hence the explicit resource limit.
+/*@ #[verifier::spinoff_prover] #[verifier::rlimit(150)] @*/
 pub fn add_signed_mul_same_len(
     c: &mut [Word],
     sign: Sign,
@@ -58,6 +61,9 @@ pub fn add_signed_mul_same_len(
     let ghost xi = sgn(sign) * (va2 * vb2);      // sign * V(inf)
     let ghost v0 = val(c@);
     let ghost mut v1 = 0int; let ghost mut v2 = 0int; let ghost mut v3 = 0int; let ghost mut v4 = 0int; let ghost mut v5 = 0int;
+    let ghost mut vv1 = 0int; let ghost mut x1 = 0int;           // V(1), sign * V(1)
+    let ghost mut sa = Positive; let ghost mut sb = Positive; let ghost mut am = 0int; let ghost mut bm = 0int;   // |A(-1)|, |B(-1)| and their signs
+    let ghost mut vm = 0int;         // |V(-1)|
     let ghost mut r1 = 0int; let ghost mut r2 = 0int; let ghost mut r3 = 0int; let ghost mut r4 = 0int; let ghost mut r5 = 0int;
     proof {
         assert(6 <= k && 1 <= ks <= k && 5 * k + 2 <= 2 * ni && ks == ni - 2 * k);
@@ -131,48 +137,31 @@ pub fn add_signed_mul_same_len(
     let (a_eval, mut memory) = memory.allocate_slice_copy_fill(n3 + 1, a0, 0);
     let (b_eval, mut memory) = memory.allocate_slice_copy_fill(n3 + 1, b0, 0);
     {
-        /*@ let ghost ae0 = a_eval@; let ghost be0 = b_eval@;
-        proof {
-            lemma_val_nonneg_all();
-            lemma_update_keeps_low();
-            lemma_val_copy_fill(ae0, a0@); lemma_val_copy_fill(be0, b0@);
-        } @*/
+        /*@ let ghost ae0 = a_eval@; let ghost be0 = b_eval@; let ghost mut mid = a_eval@;
+        proof { lemma_val_copy_fill(ae0, a0@); lemma_val_copy_fill(be0, b0@); } @*/
         a_eval[n3] = mul::add_mul_word_same_len_in_place(&mut a_eval[..n3], 2, a1);
+        /*@ #[after_rhs] proof { mid = a_eval@; lemma_eval_carry_bound(ae0, mid, k, __rhs0 as int, 2 * va1, 2); } @*/
         /*@ let ghost ae1 = a_eval@;
         proof {
-            assert(val(ae1.subrange(0, k)) + (ae1[k] as int) * w1 == va0 + 2 * va1);
-            lemma_eval_direct(ae0, ae1, k, ae1[k] as int, 2 * va1);
-            lemma_val_bound(ae1.subrange(0, k));
-            lemma_carry_le(val(ae1.subrange(0, k)), va0, 2 * va1, ae1[k] as int, w1, 2);
-            let l0 = val(ae1.subrange(0, k)); let x = 4 * va2;
-            assert forall|r: int| 0 <= r && #[trigger] (r * w1) <= l0 + x implies r <= 4 by {
-                lemma_carry_le(l0 + x - r * w1, l0, x, r, w1, 4);
-            }
+            assert(val(ae1) == va0 + 2 * va1 && ae1[k] <= 2) by { lemma_eval_step(ae0, mid, ae1, k, ae1[k] as int, 2 * va1); }
         } @*/
         a_eval[n3] += mul::add_mul_word_in_place(&mut a_eval[..n3], 4, a2);
+        /*@ #[after_rhs] proof { mid = a_eval@; lemma_eval_carry_bound(ae1, mid, k, __rhs1 as int, 4 * va2, 4); } @*/
         /*@ let ghost ae2 = a_eval@;
         proof {
-            assert(val(ae2.subrange(0, k)) + (ae2[k] as int - ae1[k] as int) * w1 == val(ae1.subrange(0, k)) + 4 * va2);
-            lemma_eval_direct(ae1, ae2, k, ae2[k] as int - ae1[k] as int, 4 * va2);
+            assert(val(ae2) == va0 + 2 * va1 + 4 * va2) by { lemma_eval_step(ae1, mid, ae2, k, ae2[k] as int - ae1[k] as int, 4 * va2); }
         } @*/
         b_eval[n3] = mul::add_mul_word_same_len_in_place(&mut b_eval[..n3], 2, b1);
+        /*@ #[after_rhs] proof { mid = b_eval@; lemma_eval_carry_bound(be0, mid, k, __rhs2 as int, 2 * vb1, 2); } @*/
         /*@ let ghost be1 = b_eval@;
         proof {
-            assert(val(be1.subrange(0, k)) + (be1[k] as int) * w1 == vb0 + 2 * vb1);
-            lemma_eval_direct(be0, be1, k, be1[k] as int, 2 * vb1);
-            lemma_val_bound(be1.subrange(0, k));
-            lemma_carry_le(val(be1.subrange(0, k)), vb0, 2 * vb1, be1[k] as int, w1, 2);
-            let l0 = val(be1.subrange(0, k)); let x = 4 * vb2;
-            assert forall|r: int| 0 <= r && #[trigger] (r * w1) <= l0 + x implies r <= 4 by {
-                lemma_carry_le(l0 + x - r * w1, l0, x, r, w1, 4);
-            }
+            assert(val(be1) == vb0 + 2 * vb1 && be1[k] <= 2) by { lemma_eval_step(be0, mid, be1, k, be1[k] as int, 2 * vb1); }
         } @*/
         b_eval[n3] += mul::add_mul_word_in_place(&mut b_eval[..n3], 4, b2);
+        /*@ #[after_rhs] proof { mid = b_eval@; lemma_eval_carry_bound(be1, mid, k, __rhs3 as int, 4 * vb2, 4); } @*/
         /*@ let ghost be2 = b_eval@;
         proof {
-            assert(val(be2.subrange(0, k)) + (be2[k] as int - be1[k] as int) * w1 == val(be1.subrange(0, k)) + 4 * vb2);
-            lemma_eval_direct(be1, be2, k, be2[k] as int - be1[k] as int, 4 * vb2);
-            assert(val(ae2) == va0 + 2 * va1 + 4 * va2 && val(be2) == vb0 + 2 * vb1 + 4 * vb2);
+            assert(val(be2) == vb0 + 2 * vb1 + 4 * vb2) by { lemma_eval_step(be1, mid, be2, k, be2[k] as int - be1[k] as int, 4 * vb2); }
         } @*/
         /*@ let ghost t1a = t1@; @*/
         debug_assert_zero!(mul::add_signed_mul_same_len(t1, Positive, a_eval, b_eval, &mut memory));
@@ -241,7 +230,6 @@ pub fn add_signed_mul_same_len(
         } @*/
     }
 
-    /*@ proof { assume(false); } @*/ //CUT
     // Sign of V(-1).
     let mut value_neg1_sign;
     let (t2, mut memory) = memory.allocate_slice_fill(2 * n3 + 2, 0);
@@ -256,17 +244,61 @@ pub fn add_signed_mul_same_len(
         // b02 = b0 + b2
         // a02 and b02 take the same amount of space as c_eval.
         let (a02, mut memory) = memory.allocate_slice_copy_fill(n3 + 1, a0, 0);
+        /*@ let ghost a020 = a02@; let ghost mut mid = a02@; proof { lemma_val_copy_fill(a020, a0@); lemma_val_zeros(t2@); } @*/
         a02[n3] = Word::from(add::add_in_place(&mut a02[..n3], a2));
+        /*@ #[after_rhs] proof { mid = a02@; } @*/
+        /*@ let ghost a021 = a02@;
+        proof {
+            assert(val(a021) == va0 + va2 && a021[k] <= 1) by { lemma_eval_step(a020, mid, a021, k, a021[k] as int, va2); }
+        } @*/
         a_eval.copy_from_slice(a02);
+        /*@ let ghost ae3 = a_eval@; @*/
         a_eval[n3] += Word::from(add::add_same_len_in_place(&mut a_eval[..n3], a1));
+        /*@ #[after_rhs] proof { mid = a_eval@; } @*/
+        /*@ let ghost ae4 = a_eval@;
+        proof {
+            assert(val(ae4) == va0 + va1 + va2) by { lemma_eval_step(ae3, mid, ae4, k, ae4[k] as int - ae3[k] as int, va1); }
+        } @*/
 
         let (b02, mut memory) = memory.allocate_slice_copy_fill(n3 + 1, b0, 0);
+        /*@ let ghost b020 = b02@; proof { lemma_val_copy_fill(b020, b0@); } @*/
         b02[n3] = Word::from(add::add_in_place(&mut b02[..n3], b2));
+        /*@ #[after_rhs] proof { mid = b02@; } @*/
+        /*@ let ghost b021 = b02@;
+        proof {
+            assert(val(b021) == vb0 + vb2 && b021[k] <= 1) by { lemma_eval_step(b020, mid, b021, k, b021[k] as int, vb2); }
+        } @*/
         b_eval.copy_from_slice(b02);
+        /*@ let ghost be3 = b_eval@; @*/
         b_eval[n3] += Word::from(add::add_same_len_in_place(&mut b_eval[..n3], b1));
+        /*@ #[after_rhs] proof { mid = b_eval@; } @*/
+        /*@ let ghost be4 = b_eval@;
+        proof {
+            assert(val(be4) == vb0 + vb1 + vb2) by { lemma_eval_step(be3, mid, be4, k, be4[k] as int - be3[k] as int, vb1); }
+        } @*/
 
         debug_assert_zero!(mul::add_signed_mul_same_len(t2, Positive, a_eval, b_eval, &mut memory));
+        /*@ proof {
+            // t2 = V(1) < 9 P^2 fits 2 n3 + 2 words
+            vv1 = val(ae4) * val(be4);
+            assert(val(ae4) < 3 * w1);
+            assert(val(be4) < 3 * w1);
+            lemma_eval_prod_bound(val(ae4), val(be4), 3, 3, w1, w2);
+            assert(vv1 < 9 * w2);
+            lemma_small_multiple_fits(vv1, 9, 2 * k);
+            lemma_sgn(Positive, vv1);
+            lemma_val_bound(t2@);
+            lemma_zero_acc_no_carry(val(t2@), vv1, __zchk6 as int, tw);
+            x1 = sgn(sign) * vv1;
+        } @*/
+        /*@ let ghost cs4 = c@; @*/
         carry_c1 += add::add_signed_in_place(&mut c[n3..3 * n3 + 2], sign, t2);
+        /*@ proof {
+            v5 = val(c@); r5 = carry_c1 as int;
+            assert(v5 + r5 * cc1 == v4 + x1 * w1) by {
+                lemma_window(cs4, c@, k, 3 * k + 2, r5, x1);
+            }
+        } @*/
 
         // Evaluate at -1.
         // a_eval = a02 - a1
@@ -278,17 +310,55 @@ pub fn add_signed_mul_same_len(
         //     t2 = V(1) + V(-1).
         a_eval.copy_from_slice(a02);
         value_neg1_sign = add::sub_in_place_with_sign(a_eval, a1);
+        /*@ proof { sa = value_neg1_sign; am = val(a_eval@); assert(sgn(sa) * am == va0 + va2 - va1); } @*/
         b_eval.copy_from_slice(b02);
         value_neg1_sign *= add::sub_in_place_with_sign(b_eval, b1);
+        /*@ proof {
+            sb = sign_mul(sa, value_neg1_sign); bm = val(b_eval@);
+            assert(value_neg1_sign == sign_mul(sa, sb));
+            assert(sgn(sb) * bm == vb0 + vb2 - vb1);
+        } @*/
         // We don't need a02, b02 any more, exit the block so that we can use c_eval again.
     }
     let (c_eval, mut memory) = memory.allocate_slice_fill(2 * (n3 + 1), 0);
+    /*@ proof { lemma_val_zeros(c_eval@); } @*/
     debug_assert_zero!(mul::add_signed_mul_same_len(c_eval, Positive, a_eval, b_eval, &mut memory));
-    debug_assert_zero!(add::add_signed_same_len_in_place(t2, value_neg1_sign, c_eval));
-    match value_neg1_sign {
-        Positive => debug_assert_zero!(mul::add_mul_word_same_len_in_place(t1, 2, c_eval)),
-        Negative => debug_assert_zero!(mul::sub_mul_word_same_len_in_place(t1, 2, c_eval)),
+    /*@ proof { lemma_kara_sub_product(c_eval@, a_eval@, b_eval@, __zchk7 as int); } @*/
+    /*@
+    let ghost sm = value_neg1_sign;
+    let ghost t1c = val(t1@);
+    let ghost t1v = q0 + q2 + q3 + q4;      // (3 V(0) + 2 V(-1) + V(2)) / 6 - 2 V(inf)
+    let ghost t2v = q0 + q2 + q4;           // (V(1) + V(-1)) / 2
+    proof {
+        vm = am * bm;
+        // sm * |V(-1)| = V(-1) = c0 - c1 + c2 - c3 + c4
+        lemma_kara_diff(sa, sb, am, bm, va0 + va2 - va1, vb0 + vb2 - vb1);
+        assert((va0 + va2 - va1) * (vb0 + vb2 - vb1) == q0 - q1 + q2 - q3 + q4);
+        assert(sgn(sm) * vm == q0 - q1 + q2 - q3 + q4);
+        lemma_sgn(sm, vm);
+        assert(vv1 == q0 + q1 + q2 + q3 + q4);
+        assert(t1c == 4 * q0 + 2 * q1 + 4 * q2 + 8 * q3 + 4 * q4);
+        lemma_small_multiple_fits(6 * vv1, 54, 2 * k);
     }
+    @*/
+    debug_assert_zero!(add::add_signed_same_len_in_place(t2, value_neg1_sign, c_eval));
+    /*@ proof {
+        // t2 = V(1) + V(-1) = 2 (c0 + c2 + c4), between 0 and 2 V(1): no carry
+        lemma_val_bound(t2@);
+        lemma_zero_acc_no_carry(val(t2@), 2 * t2v, __zchk8 as int, tw);
+    } @*/
+    match value_neg1_sign {
+        Positive => /*@ proof {
+            // t1 = 3 V(0) + V(2) - 12 V(inf) + 2 V(-1) = 6 (c0 + c2 + c3 + c4) <= 6 V(1): no carry
+            lemma_val_bound(t1@);
+            lemma_zero_acc_no_carry(val(t1@), 6 * t1v, __zchk9 as int, tw);
+        } @*/ debug_assert_zero!(mul::add_mul_word_same_len_in_place(t1, 2, c_eval)),
+        Negative => /*@ proof {
+            lemma_val_bound(t1@);
+            lemma_no_borrow_word(val(t1@), 6 * t1v, __zchk10 as int, tw);
+        } @*/ debug_assert_zero!(mul::sub_mul_word_same_len_in_place(t1, 2, c_eval)),
+    }
+    /*@ proof { assert(val(t1@) == 6 * t1v); assert(val(t2@) == 2 * t2v); lemma_pow2_1(); } @*/
 
     // t1 /= 6
     // t2 /= 2
@@ -296,6 +366,13 @@ pub fn add_signed_mul_same_len(
     //     t2 = (V(1) + V(-1))/2
     let t1_rem = div::div_by_word_in_place(t1, 6);
     let t2_rem = shift::shr_in_place(t2, 1);
+    /*@ proof {
+        // both divisions are exact
+        assert(val(t1@) == t1v && t1_rem == 0);
+        assert(val(t2@) == t2v);
+        assert((2 * t2v) % 2 == 0);
+        assert(0 * pow2(WORD_BITS - 1) == 0);
+    } @*/
     assert_eq!(t1_rem, 0);
     assert_eq!(t2_rem, 0);
 
@@ -303,16 +380,59 @@ pub fn add_signed_mul_same_len(
     // c3 += t1
     // c2 += t2
     // c3 -= t2
+    /*@
+    let ghost xt1 = sgn(sign) * t1v; let ghost xt2 = sgn(sign) * t2v;
+    let ghost cs5 = c@;
+    proof { lemma_sgn_neg(sign, t1v); lemma_sgn_neg(sign, t2v); }
+    @*/
     carry_c1 += add::add_signed_same_len_in_place(&mut c[n3..3 * n3 + 2], -sign, t1);
+    /*@ let ghost cs6 = c@; let ghost v6 = val(cs6); let ghost r6 = carry_c1 as int - r5;
+    proof { assert(v6 + r6 * cc1 == v5 + (-xt1) * w1) by { lemma_window(cs5, cs6, k, 3 * k + 2, r6, -xt1); } } @*/
     carry_c3 += add::add_signed_same_len_in_place(&mut c[3 * n3..5 * n3 + 2], sign, t1);
+    /*@ let ghost cs7 = c@; let ghost v7 = val(cs7); let ghost r7 = carry_c3 as int;
+    proof { assert(v7 + r7 * cc3 == v6 + xt1 * w3) by { lemma_window(cs6, cs7, 3 * k, 5 * k + 2, r7, xt1); } } @*/
     carry_c2 += add::add_signed_same_len_in_place(&mut c[2 * n3..4 * n3 + 2], sign, t2);
+    /*@ let ghost cs8 = c@; let ghost v8 = val(cs8); let ghost r8 = carry_c2 as int - r2 - r3;
+    proof { assert(v8 + r8 * cc2 == v7 + xt2 * w2) by { lemma_window(cs7, cs8, 2 * k, 4 * k + 2, r8, xt2); } } @*/
     carry_c3 += add::add_signed_same_len_in_place(&mut c[3 * n3..5 * n3 + 2], -sign, t2);
+    /*@ let ghost cs9 = c@; let ghost v9 = val(cs9); let ghost r9 = carry_c3 as int - r7;
+    proof { assert(v9 + r9 * cc3 == v8 + (-xt2) * w3) by { lemma_window(cs8, cs9, 3 * k, 5 * k + 2, r9, -xt2); } } @*/
 
     // Apply carries.
     carry_c1 += add::add_signed_word_in_place(&mut c[2 * n3..3 * n3 + 2], carry_c0);
+    /*@ let ghost cs10 = c@; let ghost v10 = val(cs10); let ghost k1 = carry_c1 as int - r5 - r6;
+    proof { assert(v10 + k1 * cc1 == v9 + r1 * w2) by { lemma_window(cs9, cs10, 2 * k, 3 * k + 2, k1, r1); } } @*/
     carry_c2 += add::add_signed_word_in_place(&mut c[3 * n3 + 2..4 * n3 + 2], carry_c1);
+    /*@ let ghost cs11 = c@; let ghost v11 = val(cs11); let ghost k2 = carry_c2 as int - r2 - r3 - r8;
+    proof { assert(v11 + k2 * cc2 == v10 + (r5 + r6 + k1) * cc1) by { lemma_window(cs10, cs11, 3 * k + 2, 4 * k + 2, k2, r5 + r6 + k1); } } @*/
     carry_c3 += add::add_signed_word_in_place(&mut c[4 * n3 + 2..5 * n3 + 2], carry_c2);
+    /*@ let ghost cs12 = c@; let ghost v12 = val(cs12); let ghost k3 = carry_c3 as int - r7 - r9;
+    proof {
+        assert(v12 + k3 * cc3 == v11 + (r2 + r3 + r8 + k2) * cc2) by { lemma_window(cs11, cs12, 4 * k + 2, 5 * k + 2, k3, r2 + r3 + r8 + k2); }
+        // the last window is empty when 5 n3 + 2 == 2 n (n == 16): then the callee returns its carry-in unchanged
+        lemma_pw0();
+        lemma_val_empty();
+        assert forall|r: int| #[trigger] (r * pw(0)) == r by { assert(r * 1 == r); }
+        assert(-4 <= carry_c3 <= 4);
+    } @*/
     carry += add::add_signed_word_in_place(&mut c[5 * n3 + 2..], carry_c3);
+    /*@ proof {
+        let k4 = carry as int - r4;
+        let v13 = val(c@);
+        assert(v13 + k4 * cn == v12 + (r7 + r9 + k3) * cc3) by { lemma_window(cs12, c@, 5 * k + 2, 2 * ni, k4, r7 + r9 + k3); }
+        lemma_toom_carries(v0, v1, v2, v3, v4, v5, v6, v7, v8, v9, v10, v11, v12, v13,
+            r1, r2, r3, r4, r5, r6, r7, r8, r9, k1, k2, k3, k4, x0, xi, x1, xt1, xt2, w1, w2, w3, w4, cc1, cc2, cc3, cn);
+        let ab = val(a@) * val(b@);
+        assert(ab == q0 + q1 * w1 + q2 * w2 + q3 * w3 + q4 * w4) by {
+            lemma_pw_add(2 * k, k); lemma_pw_add(2 * k, 2 * k);
+            lemma_toom_product(val(a@), val(b@), va0, va1, va2, vb0, vb1, vb2, w1, w2, w3, w4);
+        }
+        lemma_toom_final(sign, ab, q0, q1, q2, q3, q4, va0 * vb0, va2 * vb2, vv1, t1v, t2v, x0, xi, x1, xt1, xt2, w1, w2, w3, w4);
+        lemma_val_prod_bound(a@, b@);
+        lemma_val_bound(c@);
+        lemma_sgn(sign, ab);
+        lemma_signed_carry_range(v13, v0, sgn(sign) * ab, carry as int, cn);
+    } @*/
 
     debug_assert!(carry.abs() <= 1);
     carry
